@@ -460,8 +460,10 @@ def cache_signatures(inference_state, context, bracket_leaf, code_lines, user_po
     before_bracket = re.match(r'.*\(', whole, re.DOTALL)
 
     module_path = context.get_root_context().py__file__()
-    if module_path is None:
-        yield None  # Don't cache!
+    if module_path is None or before_bracket is None:
+        # Don't cache! Without a match (the cursor is on a later line than the
+        # bracket) the key would be the same for every version of the file.
+        yield None
     else:
         yield (module_path, before_bracket, bracket_leaf.start_pos)
     yield infer(
